@@ -221,7 +221,7 @@ def run(ctx, F, cg):
             n_q += 1
             if fname not in reads:
                 ctx.violation("R35d", "Query.%s|not-substituted" % fname, where(sp), "substitute_params never visits Query::%s (%s): a parameter in a WITH / ORDER BY held there stays in place, and where its evaluation error is swallowed (sort keys) the rows silently differ from the inlined form" % (fname, fty.replace("samyama::query::ast::", "")))
-            elif oks and not all(spb.must_pass(0, o, reads[fname]) for o in oks):
+            elif (oks and not all(spb.must_pass(0, o, reads[fname]) for o in oks)) or not spb.success_passes(0, reads[fname]):
                 ctx.violation("R35d", "Query.%s|skipped-on-a-path" % fname, where(sp), "substitute_params can return Ok without having visited Query::%s: on that path a parameter in its ORDER BY stays in place and the sort silently treats the key as null" % fname)
             else:
                 ctx.ok("R35d", "Query.%s" % fname, "visited on every path to Ok")
